@@ -632,6 +632,16 @@ func (a Atom) String() string {
 
 // norm fixes the sign of EQ/NE atoms so that equal facts print equally.
 func (a Atom) norm() Atom {
+	// s == "" and len(s) == 0 are one fact: both become the atom over len(s)
+	if (a.Kind == EQ || a.Kind == NE) && a.L.K == 0 && len(a.L.Coef) == 2 {
+		if ce, ok := a.L.Coef[`""`]; ok {
+			for t, c := range a.L.Coef {
+				if t != `""` && c == -ce && (c == 1 || c == -1) {
+					a = Atom{Kind: a.Kind, L: Lin{Coef: map[string]int64{"len(" + t + ")": 1}}, NonNeg: true}
+				}
+			}
+		}
+	}
 	if a.Kind == EQ || a.Kind == NE {
 		var ts []string
 		for t := range a.L.Coef {
